@@ -1,4 +1,6 @@
 import TF.Proofs.MmrIndex
+import TF.Proofs.MmrTree
+import TF.Proofs.MmrForest
 import TF.Proofs.MmrBounded
 /-!
 # C16 — MMR index arithmetic matches the explicit forest of perfect trees
@@ -19,7 +21,7 @@ Notation: `popCount` = number of set bits, `trailingOnes` = number of trailing o
 highest set bit, `bitsBelow h n` = positions of the set bits of `n` below `h`, highest first.
 -/
 namespace TF.C16
-open TF TF.Gen TF.Mmr TF.Spec.Mmr
+open TF TF.Gen TF.Mmr TF.Spec.Mmr TF.Model.Mmr
 
 /-- `num_leafs_to_num_nodes n = 2n − popcount n` for every leaf count below `2^63`, without overflow. -/
 theorem num_leafs_to_num_nodes_exact (n : Nat) (h : n < 2^63) :
@@ -103,6 +105,168 @@ theorem leaf_index_to_mt_index_and_peak_index_panics_iff (i n : Nat) (hn : n < 2
     unfold leaf_index_to_mt_index_and_peak_index_ok
     have : decide (i < n) = false := by simp; omega
     rw [this]; rfl
+
+/-! ## the loop functions against S1
+
+`tree 0 0 63` is the perfect tree with node indices `1 … 2^64 − 1` numbered in post-order; every MMR with fewer
+than `2^63` leaves is the prefix `1 … 2n − popcount n` of it.  `(tree 0 0 63).rootRows` is its table: one `Row` per
+node with height, right-lineage length, parent, sibling, children, leaf index — computed by walking the tree.
+`none` on the left-hand sides below would mean "the Rust loop does not terminate within 65 rounds". -/
+
+/-- every node index `1 … 2^64 − 1` occurs in the table -/
+theorem every_node_index_has_a_row (n : Nat) (h1 : 1 ≤ n) (h2 : n < 2^64) :
+    ∃ r ∈ (tree 0 0 63).rootRows, r.idx = n :=
+  rows_idx_complete 63 0 0 0 0 false 0 1 [] n (by omega) (by
+    have h64 : (2:Nat)^64 = 18446744073709551616 := by decide
+    omega)
+example : (1 : Nat) ≤ 18446744073709551615 ∧ (18446744073709551615 : Nat) < 2^64 := by decide
+
+/-- **`right_lineage_length_and_own_height`** terminates and returns (right-lineage length, height) of the node, for
+    every node index `1 … 2^64 − 1` -/
+theorem right_lineage_length_and_own_height_exact (r : Row) (hr : r ∈ (tree 0 0 63).rootRows) :
+    right_lineage_length_and_own_height r.idx = some (r.rll, r.height) := rll_own_rows r hr
+
+/-- **`parent`** returns the parent, for every node that has one (all but the root `2^64 − 1`) -/
+theorem parent_exact (r : Row) (hr : r ∈ (tree 0 0 63).rootRows) (hp : r.parent ≠ 0) :
+    parent r.idx = some r.parent := parent_rows r hr hp
+
+/-- **`left_sibling` / `right_sibling`** applied to a right / left child with its height return the sibling, without
+    overflow -/
+theorem siblings_exact (r : Row) (hr : r ∈ (tree 0 0 63).rootRows) (hp : r.parent ≠ 0) :
+    (r.rll ≠ 0 → left_sibling r.idx r.height = r.sibling ∧ left_sibling_ok r.idx r.height = true) ∧
+    (r.rll = 0 → right_sibling r.idx r.height = r.sibling ∧ right_sibling_ok r.idx r.height = true) :=
+  sibling_rows r hr hp
+
+/-- **`left_child` / `right_child`** applied to an inner node with its height return the children, without overflow -/
+theorem children_exact (r : Row) (hr : r ∈ (tree 0 0 63).rootRows) (hh : 0 < r.height) :
+    left_child r.idx r.height = r.left ∧ left_child_ok r.idx r.height = true ∧
+    right_child r.idx = r.right ∧ right_child_ok r.idx = true := children_rows r hr hh
+
+/-- **`node_index_to_leaf_index`** returns `Some(leaf index)` exactly for the leaves, `None` for inner nodes -/
+theorem node_index_to_leaf_index_exact (r : Row) (hr : r ∈ (tree 0 0 63).rootRows) :
+    node_index_to_leaf_index r.idx = some r.leaf := n2l_rows r hr
+
+/-- the table of S1 is consistent with the index arithmetic the statement of the property talks about:
+    a right child has its parent at `+1` and its sibling `2^(h+1) − 1` below, a left child has its parent
+    `2^(h+1)` above and its sibling just below the parent; children of an inner node of height `h` are at
+    `−2^h` and `−1` -/
+theorem table_arithmetic (h : Nat) (r : Row) (hr : r ∈ (tree 0 0 h).rootRows) : RowArith r := rootRows_arith h r hr
+example : (6, 1, 1, 7, 3, 4, 5) ∈ (tree 0 0 2).rootRows.map
+    (fun r => (r.idx, r.height, r.rll, r.parent, r.sibling, r.left, r.right)) := by decide
+
+/-! ## S0 — the explicit forest (append leaves, merge equal heights, running node counter) -/
+
+/-- the explicit forest with `n` leaves has `2n − popcount n` nodes (= `num_leafs_to_num_nodes n`), `n` leaves, and
+    its trees have, from the oldest to the most recent, the heights of the set bits of `n` from the highest down
+    (= `get_peak_heights n`) -/
+theorem forest_shape_exact (n : Nat) (hn : n < 2^63) :
+    (forest n).nodes = num_leafs_to_num_nodes n ∧ (forest n).leafs = n ∧
+    (forest n).peaks.map TF.Spec.Mmr.Tree.height = get_peak_heights n := by
+  have hs := forest_shape n (by omega)
+  rw [(num_nodes_spec n hn).1, get_peak_heights_spec n (by omega)]
+  exact hs
+example : (forest 11).peaks.map TF.Spec.Mmr.Tree.height = [3, 1, 0] ∧ (forest 11).nodes = 19 := by decide
+
+/-- **`get_peak_heights`** = positions of the set bits, highest first, for every `u64` -/
+theorem get_peak_heights_exact (n : Nat) (hn : n < 2^64) : get_peak_heights n = bitsBelow 64 n :=
+  get_peak_heights_spec n hn
+example : bitsBelow 64 11 = [3, 1, 0] := by decide
+
+/-- **S0 is a prefix of S1**: every row of the table of the explicit forest with `n < 2^63` leaves is a row of the
+    table of `tree 0 0 63` — same node index, height, right-lineage length, children, leaf index, and same parent
+    and sibling unless the node is a peak of the forest (recorded there with parent `0`) -/
+theorem S0_is_prefix_of_S1 (n : Nat) (hn : n < 2^63) (k : Nat) (r : Row) (hr : (k, r) ∈ (forest n).rows) :
+    ∃ r' ∈ (tree 0 0 63).rootRows,
+      r.idx = r'.idx ∧ r.height = r'.height ∧ r.rll = r'.rll ∧ r.left = r'.left ∧ r.right = r'.right ∧
+      r.leaf = r'.leaf ∧ (r.parent ≠ 0 → r.parent = r'.parent ∧ r.sibling = r'.sibling) :=
+  forest_row_in_s1 n hn k r hr
+
+/-- **node-level functions against the explicit forest**, for every leaf count below `2^63` and every node of the
+    forest: `right_lineage_length_and_own_height`, `node_index_to_leaf_index`, `parent`, `left_sibling` /
+    `right_sibling`, `left_child` / `right_child` return what the table of the forest says (and the translated ones
+    do so without overflow) -/
+theorem node_functions_agree_with_forest (n : Nat) (hn : n < 2^63) (k : Nat) (r : Row)
+    (hr : (k, r) ∈ (forest n).rows) :
+    right_lineage_length_and_own_height r.idx = some (r.rll, r.height) ∧
+    node_index_to_leaf_index r.idx = some r.leaf ∧
+    (r.parent ≠ 0 → parent r.idx = some r.parent ∧
+      (r.rll ≠ 0 → left_sibling r.idx r.height = r.sibling ∧ left_sibling_ok r.idx r.height = true) ∧
+      (r.rll = 0 → right_sibling r.idx r.height = r.sibling ∧ right_sibling_ok r.idx r.height = true)) ∧
+    (0 < r.height → left_child r.idx r.height = r.left ∧ left_child_ok r.idx r.height = true ∧
+      right_child r.idx = r.right ∧ right_child_ok r.idx = true) :=
+  forest_node_functions n hn k r hr
+example : (1, 8, 0, some 4) ∈ (forest 5).rows.map (fun kr => (kr.1, kr.2.idx, kr.2.height, kr.2.leaf)) := by decide
+
+/-- **leaf-level functions against the explicit forest**: for every leaf of the forest, `leaf_index_to_node_index`
+    returns its node index and `right_lineage_length_from_leaf_index` its right-lineage length -/
+theorem leaf_functions_agree_with_forest (n : Nat) (hn : n < 2^63) (k : Nat) (r : Row)
+    (hr : (k, r) ∈ (forest n).rows) (li : Nat) (hl : r.leaf = some li) :
+    leaf_index_to_node_index li = r.idx ∧ right_lineage_length_from_leaf_index li = r.rll :=
+  forest_leaf_functions n hn k r hr li hl
+
+/-- **Merkle-tree index and peak index against the walk over the trees**: for `i < n < 2^64`,
+    `leaf_index_to_mt_index_and_peak_index i n = (2^h + j, k)` where `(h, j, k) = leafPos 64 n i 0 0` is found by
+    walking over the trees of the MMR (set bits of `n`, highest first): `h` the height of the tree that contains
+    leaf `i`, `j` the position of the leaf inside that tree, `k` the number of trees before it -/
+theorem mt_index_and_peak_index_agree_with_walk (i n : Nat) (hin : i < n) (hn : n < 2^64) :
+    ∃ h j k, leafPos 64 n i 0 0 = some (h, j, k) ∧ leaf_index_to_mt_index_and_peak_index i n = (2^h + j, k) :=
+  ⟨_, _, _, leafPos_closed 64 n i hin hn, (mt_spec i n hin hn).1⟩
+example : leafPos 64 14 9 0 0 = some (2, 1, 1) := by decide
+
+/-- **`right_lineage_length_from_node_index`** (the recursive variant) terminates and returns the right-lineage
+    length of the node, for every node index `1 … 2^64 − 1` and on every node of every explicit forest -/
+theorem right_lineage_length_from_node_index_exact :
+    (∀ r ∈ (tree 0 0 63).rootRows, right_lineage_length_from_node_index r.idx = some r.rll) ∧
+    (∀ n, n < 2^63 → ∀ k r, (k, r) ∈ (forest n).rows → right_lineage_length_from_node_index r.idx = some r.rll) :=
+  ⟨fun r hr => rll_node_rows r hr, fun n hn k r hr => forest_rll_node n hn k r hr⟩
+
+/-- **`node_indices_added_by_append`**: for every leaf count `c < 2^63`, the node indices that the explicit forest
+    gains when one leaf is appended: the new leaf `2c − popcount c + 1` and its `trailing_ones c` new ancestors,
+    consecutively numbered -/
+theorem node_indices_added_by_append_exact (c : Nat) (hc : c < 2^63) :
+    node_indices_added_by_append c
+      = some ((List.range ((forest (c+1)).nodes - (forest c).nodes)).map fun k => (forest c).nodes + 1 + k) ∧
+    node_indices_added_by_append c
+      = some ((List.range (trailingOnes c + 1)).map fun k => 2 * c - popCount c + 1 + k) :=
+  ⟨forest_added c hc, added_spec c hc⟩
+example : node_indices_added_by_append 7 = some [12, 13, 14, 15] := by decide +kernel
+
+/-- **`get_peak_heights_and_peak_node_indices`**: for every leaf count below `2^63` the two nested loops terminate
+    and return the heights and the node indices of the trees of the explicit forest, oldest (highest) first.
+    (For `2^63` the Rust loop spins forever — the model returns `none` there, see the `example`.) -/
+theorem get_peak_heights_and_peak_node_indices_exact (n : Nat) (hn : n < 2^63) :
+    get_peak_heights_and_peak_node_indices n
+      = some ((forest n).peaks.map TF.Spec.Mmr.Tree.height, (forest n).peaks.map TF.Spec.Mmr.Tree.idx) :=
+  forest_peaks n hn
+example : get_peak_heights_and_peak_node_indices (2^63) = none := by decide +kernel
+example : get_peak_heights_and_peak_node_indices 11 = some ([3, 1, 0], [15, 18, 19]) := by decide +kernel
+
+/-! ## what is still open -/
+
+/-- FULL STATEMENT of C16 in executable form: for every leaf count below `2^63`, *every* index function (translated
+    and hand-modelled, see `TF.Mmr.forestAgrees` / `rowAgrees`) reproduces the table of the explicit forest on every
+    node and every leaf — including `get_authentication_path_node_indices` and the Merkle-tree / peak index
+    of every leaf as recorded in the table -/
+def all_functions_agree_with_forest_statement : Prop := ∀ n, n < 2^63 → forestAgrees n = true
+
+/-- the part of `all_functions_agree_with_forest_statement` that is proved for all `n < 2^63` (everything above,
+    collected): shape of the forest, all node-level functions, the leaf-level functions -/
+theorem all_functions_agree_with_forest_partial (n : Nat) (hn : n < 2^63) :
+    ((forest n).nodes = num_leafs_to_num_nodes n ∧ (forest n).leafs = n ∧
+      (forest n).peaks.map TF.Spec.Mmr.Tree.height = get_peak_heights n) ∧
+    ∀ k r, (k, r) ∈ (forest n).rows →
+      (right_lineage_length_and_own_height r.idx = some (r.rll, r.height) ∧
+       node_index_to_leaf_index r.idx = some r.leaf ∧
+       (r.parent ≠ 0 → parent r.idx = some r.parent ∧
+         (r.rll ≠ 0 → left_sibling r.idx r.height = r.sibling ∧ left_sibling_ok r.idx r.height = true) ∧
+         (r.rll = 0 → right_sibling r.idx r.height = r.sibling ∧ right_sibling_ok r.idx r.height = true)) ∧
+       (0 < r.height → left_child r.idx r.height = r.left ∧ left_child_ok r.idx r.height = true ∧
+         right_child r.idx = r.right ∧ right_child_ok r.idx = true)) ∧
+      (∀ li, r.leaf = some li →
+        leaf_index_to_node_index li = r.idx ∧ right_lineage_length_from_leaf_index li = r.rll) :=
+  ⟨forest_shape_exact n hn, fun k r hr =>
+    ⟨forest_node_functions n hn k r hr, fun li hl => forest_leaf_functions n hn k r hr li hl⟩⟩
+example : (1000 : Nat) < 2^63 := by decide
 
 /-! ## tests (kernel-evaluated, bounded): every function against the table of the explicit forest S0 -/
 
